@@ -443,4 +443,18 @@ theorem order_of_eval (c : CurveParams) [Good c] (hG : containsXY c c.gx c.gy = 
   subst h
   exact h3.symm
 
+
+/-- conversely: if the ladder run on the scalar `k` returns an affine point, then `k • P ≠ ∞` -/
+theorem smul_ne_zero_of_eval (c : CurveParams) [Good c] (P : Pt) (hP : OnCurve c P) (k : Nat)
+    (h : (multiply (orderless c) P k).toOption ≠ some none) :
+    (k : Int) • toPoint c P ≠ 0 := by
+  obtain ⟨R, h1, h2, h3⟩ := multiply_refines (orderless c) P hP k (fun h => absurd rfl h)
+    (fun _ => Int.natCast_nonneg _)
+  intro h0
+  apply h
+  rw [h1]
+  have : toPoint (orderless c) R = 0 := by rw [h3]; exact h0
+  rw [toPoint_eq_zero (orderless c) h2 this]
+  rfl
+
 end Pycoin.Curve
